@@ -543,6 +543,14 @@ def run(ctx: Any, prog: Program) -> None:
     ctx.rule('C14.X4', 'binary/string converters exist per type, share one struct, and agree on arity and matrix cell positions', floor=40)
     ctx.rule('C14.X5', 'KeyValues2: quoted str slots are escaped and encoded with the selected encoding; keywords agree; reader decodes escapes', floor=12)
     ctx.rule('C14.X6', 'stub elements created by the parsers carry the UUID read from the file; writers never queue a stub as an element', floor=4)
+    # per-object state that methods change in place must not be a class-level container shared by every instance (see engine.model)
+    from engine.model import shared_mutable_class_attrs as _smca
+    for _m in (dmx,):
+        _hits = _smca(_m.tree, [c.name for c in _m.tree.body if isinstance(c, ast.ClassDef)])
+        for _cn, _attr, _st in _hits:
+            ctx.check('C14.X6', False, _m, _st, f'{_cn}.{_attr} is a class-level container (`{U(_st.value)[:30]}`) that methods change in place and no __init__ assigns: all {_cn} objects share it, so attributes or references of one element tree appear in another',
+                      func=_cn, text=f'{_cn}.{_attr} is per-object state')
+        ctx.check('C14.X6', True, _m, _m.tree, f'{len(_hits)} shared class-level containers in {_m.relpath}', func='<module>', text=f'{_m.relpath}: class-level containers examined')
     ctx.rule('C14.X7', 'the attribute count and the loop skipping the name attribute use the same criterion', floor=1)
     ctx.rule('C14.X8', 'KV1 bridge: both directions use the same type names, keys and reserved names', floor=5)
     ctx.rule('C14.X9', 'index tables (values that can be 0) are consulted with `in` / `is None`, never through the truthiness of .get()', floor=1)
